@@ -11,7 +11,7 @@ EXTENDS MpqFormat, Json, IOUtils, TLC
 Rec == ndJsonDeserialize(IOEnv.ARCH)
 
 NoHeaderNat == [hsize |-> -1, asize |-> -1, ver |-> -1, shift |-> -1, htpos |-> -1, btpos |-> -1,
-                htcount |-> -1, btcount |-> -1, hibt |-> -1, hthi |-> -1, bthi |-> -1]
+                htcount |-> -1, btcount |-> -1, hibt |-> -1, hthi |-> -1, bthi |-> -1, asize64 |-> -1, nohetbet |-> FALSE]
 
 FileOut(fi) == [res |-> fi.res, flags |-> Hex32(fi.flags), pos |-> fi.pos, csize |-> fi.csize, fsize |-> fi.fsize,
                 blk |-> fi.blk, single |-> fi.single, cflag |-> fi.cflag, enc |-> fi.enc,
